@@ -255,8 +255,8 @@ def seeds(seed):
     return [
         ("ios", ["remark = web", f"permit tcp {ip(w)} 0.0.0.255 any eq 80 443",
                  f"permit tcp host {ip(w + 1)} any eq 443", "remark = dns",
-                 "deny udp any object-group GRP eq 53 log", "permit ip any any",
-                 "permit icmp any any"],
+                 "deny udp any object-group GRP eq 53 log", "permit tcp any any eq 135",
+                 "permit ip any any", "permit icmp any any"],
          {"GRP": mem_ios}, ""),
         ("nxos", ["10 remark = one", f"20 permit tcp {ip(w)}/24 any eq 22", "30 permit ip addrgroup GRP any",
                   "40 remark = two", f"50 deny ip host {ip(w + 1)} any", "60 permit ip any any"],
@@ -490,7 +490,7 @@ def run_history(si, ops, ctx, independence=True):
     n_leaves = len(model.flat())
     if any(o in ops for o in ("platform=nxos", "ungroup_ports")) and si == 0:
         ctx.out("split_happened")
-    if "delete_shadow" in ops and n_leaves < (7 if si in (0, 2) else 6) + ops.count("insert"):
+    if "delete_shadow" in ops and n_leaves < (8 if si == 0 else 7 if si == 2 else 6) + ops.count("insert"):
         ctx.out("shadow_removed")
     if model.group_by:
         ctx.out("regrouped")
